@@ -295,6 +295,210 @@ static void validity_records() {
 	gcry_mpi_release(r); gcry_mpi_release(s);
 }
 
+
+// ---------------------------------------------------------------------------------------------------------
+// key blocks: signatures read through PublicKeyBlockParse / PrivateKeyBlockParse / MessageParse / SignatureParse
+// ---------------------------------------------------------------------------------------------------------
+static const tmcg_openpgp_byte_t *oid_of(const char *name) {
+	for (size_t i = 0; tmcg_openpgp_oidtable[i].name != NULL; i++) if (std::string(name) == tmcg_openpgp_oidtable[i].name) return tmcg_openpgp_oidtable[i].oid;
+	return NULL;
+}
+static gcry_mpi_t mpi_from(const oct &b) { gcry_mpi_t t = NULL; gcry_mpi_scan(&t, GCRYMPI_FMT_USG, b.data(), b.size(), NULL); return t; }
+static gcry_mpi_t gen_mpi(unsigned bits) { oct b = rnd_oct((bits + 7) / 8); b[0] |= 0x80; return mpi_from(b); }
+// the hashed part of a version-4 signature with exactly the subpackets asked for
+static oct mk_hashed(int type, int pkalgo, int ha, uint32_t ct, uint32_t sigexp, uint32_t keyexp, int flags, const oct &fpr) {
+	oct sub, t;
+	PGP::PacketTimeEncode(ct, t); PGP::SubpacketEncode(2, false, t, sub);
+	if (sigexp) { t.clear(); PGP::PacketTimeEncode(sigexp, t); PGP::SubpacketEncode(3, false, t, sub); }
+	if (keyexp) { t.clear(); PGP::PacketTimeEncode(keyexp, t); PGP::SubpacketEncode(9, false, t, sub); }
+	if (flags >= 0) { oct f; f.push_back(flags); PGP::SubpacketEncode(27, false, f, sub); }
+	if (fpr.size() == 20) { oct kid(fpr.begin() + 12, fpr.end()); PGP::SubpacketEncode(16, false, kid, sub); oct f4; f4.push_back(4); f4.insert(f4.end(), fpr.begin(), fpr.end()); PGP::SubpacketEncode(33, false, f4, sub); }
+	{ oct ft; ft.push_back(1); PGP::SubpacketEncode(30, false, ft, sub); }
+	oct out; out.push_back(4); out.push_back(type); out.push_back(pkalgo); out.push_back(ha); out.push_back(sub.size() >> 8); out.push_back(sub.size() & 0xFF);
+	out.insert(out.end(), sub.begin(), sub.end());
+	return out;
+}
+static std::string fields_tok(const TMCG_OpenPGP_Signature *s) {
+	return hx(s->version) + ":" + hx(s->type) + ":" + hx(s->pkalgo) + ":" + hx(s->hashalgo) + ":" + hx((unsigned long)s->creationtime) + ":" + hx((unsigned long)s->expirationtime) + ":" +
+		hx((unsigned long)s->keyexpirationtime) + ":" + xb(S(s->keyflags)) + ":" + xb(S(s->issuer));
+}
+static void fields_rec(const char *path, const TMCG_OpenPGP_Signature *s) {
+	oct body; if (PGP::PacketBodyExtract(s->packet, 0, body) != 2) { propfail("sigfields-packet", std::string("signature object from path ") + path + " does not carry its packet"); return; }
+	Rec("sigfields").t(path).b(S(body)).t(fields_tok(s)); g_cases++;
+}
+struct SigSpec { int type; uint32_t ct, sigexp, keyexp; int ha; int flags; };
+static void collect(const TMCG_OpenPGP_Pubkey *pub, std::vector<const TMCG_OpenPGP_Signature*> &v) {
+	auto add = [&](const TMCG_OpenPGP_Signatures &l) { for (size_t i = 0; i < l.size(); i++) v.push_back(l[i]); };
+	add(pub->selfsigs); add(pub->keyrevsigs); add(pub->certrevsigs);
+	for (auto u : pub->userids) { add(u->selfsigs); add(u->revsigs); add(u->certsigs); }
+	for (auto u : pub->userattributes) { add(u->selfsigs); add(u->revsigs); add(u->certsigs); }
+	for (auto sk : pub->subkeys) { add(sk->selfsigs); add(sk->bindsigs); add(sk->pbindsigs); add(sk->keyrevsigs); add(sk->certrevsigs); }
+}
+// deterministic part: every signing algorithm's packet layout through all four parse paths, fields vs model
+static void sigfields_suite() {
+	static const int ALG[] = { TMCG_OPENPGP_PKALGO_RSA, TMCG_OPENPGP_PKALGO_DSA, TMCG_OPENPGP_PKALGO_ECDSA, TMCG_OPENPGP_PKALGO_EDDSA, TMCG_OPENPGP_PKALGO_RSA_SIGN_ONLY };
+	for (int rep = 0; rep < (T ? 12 : 3); rep++) for (int ai = 0; ai < 5; ai++) {
+		int alg = ALG[ai]; uint32_t kt = 1000000 + gen().below(1UL << 30);
+		gcry_mpi_t p = gen_mpi(1024), q = gen_mpi(160), g = gen_mpi(1020), y = gen_mpi(1023), x = gen_mpi(159), e = gen_mpi(17);
+		oct pubpkt, secpkt, subpkt, ssbpkt;
+		if (alg == TMCG_OPENPGP_PKALGO_RSA || alg == TMCG_OPENPGP_PKALGO_RSA_SIGN_ONLY) PGP::PacketPubEncode(kt, (tmcg_openpgp_pkalgo_t)alg, p, e, g, y, pubpkt);
+		else if (alg == TMCG_OPENPGP_PKALGO_DSA) { PGP::PacketPubEncode(kt, (tmcg_openpgp_pkalgo_t)alg, p, q, g, y, pubpkt); tmcg_openpgp_secure_string_t nopw; PGP::PacketSecEncode(kt, (tmcg_openpgp_pkalgo_t)alg, p, q, g, y, x, nopw, secpkt); }
+		else { const tmcg_openpgp_byte_t *oid = oid_of(alg == TMCG_OPENPGP_PKALGO_ECDSA ? "NIST P-256" : "Ed25519");
+			oct pt = rnd_oct(alg == TMCG_OPENPGP_PKALGO_ECDSA ? 65 : 33); pt[0] = (alg == TMCG_OPENPGP_PKALGO_ECDSA) ? 0x04 : 0x40; gcry_mpi_t ec = mpi_from(pt);
+			PGP::PacketPubEncode(kt, (tmcg_openpgp_pkalgo_t)alg, oid[0], oid + 1, ec, TMCG_OPENPGP_HASHALGO_SHA256, TMCG_OPENPGP_SKALGO_AES128, pubpkt); gcry_mpi_release(ec); }
+		PGP::PacketSubEncode(kt + 5, TMCG_OPENPGP_PKALGO_ELGAMAL, p, q, g, y, subpkt);
+		{ tmcg_openpgp_secure_string_t nopw; PGP::PacketSsbEncode(kt + 5, TMCG_OPENPGP_PKALGO_ELGAMAL, p, q, g, y, x, nopw, ssbpkt); }
+		oct pubbody, fpr; PGP::PacketBodyExtract(pubpkt, 0, pubbody); PGP::FingerprintCompute(pubbody, fpr);
+		std::string uidstr = "Key " + std::to_string(rep) + " <k@example.org>"; oct uidpkt; PGP::PacketUidEncode(uidstr, uidpkt);
+		auto fake_sig = [&](int type, int flags) {
+			uint32_t ct = kt + gen().below(100000), se = gen().below(3) ? 1 + gen().below(1UL << 20) : 0, ke = gen().below(3) ? 1 + gen().below(1UL << 20) : 0;
+			if (se == ke && se) ke += 7;
+			oct hashed = mk_hashed(type, alg, HASHES[gen().below(3)], ct, se, ke, flags, fpr), left = rnd_oct(2), pkt;
+			gcry_mpi_t r = gen_mpi(alg == TMCG_OPENPGP_PKALGO_RSA || alg == TMCG_OPENPGP_PKALGO_RSA_SIGN_ONLY ? 1020 : 250), s2 = gen_mpi(250);
+			if (alg == TMCG_OPENPGP_PKALGO_RSA || alg == TMCG_OPENPGP_PKALGO_RSA_SIGN_ONLY) PGP::PacketSigEncode(hashed, left, r, pkt); else PGP::PacketSigEncode(hashed, left, r, s2, pkt);
+			gcry_mpi_release(r); gcry_mpi_release(s2); return pkt; };
+		std::vector<oct> sigs;
+		oct block = pubpkt, prvblock = secpkt;
+		auto app = [&](const oct &o, bool both = true) { block.insert(block.end(), o.begin(), o.end()); if (both) prvblock.insert(prvblock.end(), o.begin(), o.end()); };
+		{ oct s1 = fake_sig(0x1F, 3); sigs.push_back(s1); app(s1); }                                  // direct key
+		{ oct s1 = fake_sig(0x20, -1); sigs.push_back(s1); app(s1); }                                 // key revocation
+		app(uidpkt);
+		for (int ty = 0x10; ty <= 0x13; ty++) { oct s1 = fake_sig(ty, 3); sigs.push_back(s1); app(s1); }   // certifications
+		{ oct s1 = fake_sig(0x30, -1); sigs.push_back(s1); app(s1); }                                 // certification revocation
+		block.insert(block.end(), subpkt.begin(), subpkt.end()); prvblock.insert(prvblock.end(), ssbpkt.begin(), ssbpkt.end());
+		{ oct s1 = fake_sig(0x18, 12); sigs.push_back(s1); app(s1); }                                 // subkey binding
+		{ oct s1 = fake_sig(0x28, -1); sigs.push_back(s1); app(s1); }                                 // subkey revocation
+		// path 1: SignatureParse
+		for (const oct &sp : sigs) { TMCG_OpenPGP_Signature *sg = NULL; if (PGP::SignatureParse(sp, 0, sg) && sg) { fields_rec("sigparse", sg); delete sg; } }
+		// path 2: public key block
+		{ TMCG_OpenPGP_Pubkey *pub = NULL;
+		  if (!PGP::PublicKeyBlockParse(block, 0, pub) || !pub) propfail("keyblock-parse", "well-formed key block (pk algorithm " + std::to_string(alg) + ") does not parse");
+		  else { std::vector<const TMCG_OpenPGP_Signature*> v; collect(pub, v);
+			if (v.size() != sigs.size()) propfail("keyblock-signatures-lost", "key block with " + std::to_string(sigs.size()) + " self-signatures (pk algorithm " + std::to_string(alg) + ") yields " + std::to_string(v.size()) + " signature objects");
+			for (auto sg : v) fields_rec("keyblock", sg); }
+		  if (pub) delete pub; }
+		// path 3: private key block (the library encodes DSA / ElGamal secret keys only)
+		if (!secpkt.empty()) { TMCG_OpenPGP_Prvkey *prv = NULL; tmcg_openpgp_secure_string_t nopw;
+		  if (PGP::PrivateKeyBlockParse(prvblock, 0, nopw, prv) && prv && prv->pub) { std::vector<const TMCG_OpenPGP_Signature*> v; collect(prv->pub, v); for (auto sg : v) fields_rec("prvblock", sg); }
+		  else propfail("prvblock-parse", "well-formed private key block does not parse");
+		  if (prv) delete prv; }
+		// path 4: signature inside a message
+		{ oct m; oct hashed = mk_hashed(gen().below(2), alg, HASHES[gen().below(3)], kt + 77, gen().coin() ? 4242 : 0, 0, -1, fpr), left = rnd_oct(2), sp;
+		  gcry_mpi_t r = gen_mpi(alg == TMCG_OPENPGP_PKALGO_RSA || alg == TMCG_OPENPGP_PKALGO_RSA_SIGN_ONLY ? 1020 : 250), s2 = gen_mpi(250);
+		  if (alg == TMCG_OPENPGP_PKALGO_RSA || alg == TMCG_OPENPGP_PKALGO_RSA_SIGN_ONLY) PGP::PacketSigEncode(hashed, left, r, sp); else PGP::PacketSigEncode(hashed, left, r, s2, sp);
+		  gcry_mpi_release(r); gcry_mpi_release(s2);
+		  oct lit; PGP::PacketLitEncode(rnd_oct(10), lit); for (int i = 0; i < 4; i++) lit[lit.size() - 14 + i] = 0;   // fixed date: records stay reproducible
+		  m = sp; m.insert(m.end(), lit.begin(), lit.end());
+		  TMCG_OpenPGP_Message *msg = NULL;
+		  if (PGP::MessageParse(m, 0, msg) && msg) { for (size_t i = 0; i < msg->signatures.size(); i++) fields_rec("message", msg->signatures[i]); }
+		  if (msg) delete msg; }
+		gcry_mpi_release(p); gcry_mpi_release(q); gcry_mpi_release(g); gcry_mpi_release(y); gcry_mpi_release(x); gcry_mpi_release(e);
+	}
+}
+
+// real keys: key blocks whose self-signatures are expired / carry an expired key / are too old / future / weakly hashed
+struct Primary { const Key *k; oct pubpkt, pubbody, fpr; uint32_t kct; };
+static bool primary_packet(const Key &k, uint32_t kct, Primary &P) {
+	P.k = &k; P.kct = kct;
+	if (k.pkalgo == TMCG_OPENPGP_PKALGO_RSA) { gcry_mpi_t n = NULL, e = NULL; if (gcry_sexp_extract_param(k.key, NULL, "ne", &n, &e, NULL)) return false;
+		PGP::PacketPubEncode(kct, TMCG_OPENPGP_PKALGO_RSA, n, e, n, e, P.pubpkt); gcry_mpi_release(n); gcry_mpi_release(e); }
+	else if (k.pkalgo == TMCG_OPENPGP_PKALGO_DSA) { gcry_mpi_t p = NULL, q = NULL, g = NULL, y = NULL; if (gcry_sexp_extract_param(k.key, NULL, "pqgy", &p, &q, &g, &y, NULL)) return false;
+		PGP::PacketPubEncode(kct, TMCG_OPENPGP_PKALGO_DSA, p, q, g, y, P.pubpkt); gcry_mpi_release(p); gcry_mpi_release(q); gcry_mpi_release(g); gcry_mpi_release(y); }
+	else { gcry_sexp_t t = gcry_sexp_find_token(k.key, "q", 0); if (!t) return false; size_t n = 0; unsigned char *b = (unsigned char*)gcry_sexp_nth_buffer(t, 1, &n); gcry_sexp_release(t); if (!b) return false;
+		oct pt(b, b + n); gcry_free(b); if (k.pkalgo == TMCG_OPENPGP_PKALGO_EDDSA && pt.size() == 32) pt.insert(pt.begin(), 0x40);
+		const tmcg_openpgp_byte_t *oid = oid_of(k.pkalgo == TMCG_OPENPGP_PKALGO_ECDSA ? "NIST P-256" : "Ed25519"); gcry_mpi_t ec = mpi_from(pt);
+		PGP::PacketPubEncode(kct, (tmcg_openpgp_pkalgo_t)k.pkalgo, oid[0], oid + 1, ec, TMCG_OPENPGP_HASHALGO_SHA256, TMCG_OPENPGP_SKALGO_AES128, P.pubpkt); gcry_mpi_release(ec); }
+	if (P.pubpkt.empty()) return false;
+	PGP::PacketBodyExtract(P.pubpkt, 0, P.pubbody); PGP::FingerprintCompute(P.pubbody, P.fpr);
+	return true;
+}
+// kind: 0 certification over uid, 1 direct key / key revocation, 2 subkey binding
+static bool real_sig(const Primary &P, int kind, const SigSpec &sp, const std::string &uid, const oct &subbody, oct &pkt) {
+	oct hashed = mk_hashed(sp.type, P.k->pkalgo, sp.ha, sp.ct, sp.sigexp, sp.keyexp, sp.flags, P.fpr), hash, left;
+	if (kind == 0) PGP::CertificationHash(P.pubbody, uid, oct(), hashed, (tmcg_openpgp_hashalgo_t)sp.ha, hash, left);
+	else if (kind == 1) PGP::KeyHash(P.pubbody, hashed, (tmcg_openpgp_hashalgo_t)sp.ha, hash, left);
+	else PGP::KeyHash(P.pubbody, subbody, hashed, (tmcg_openpgp_hashalgo_t)sp.ha, hash, left);
+	gcry_mpi_t r = NULL, s = NULL; if (!do_sign(*P.k, sp.ha, hash, r, s)) { gcry_mpi_release(r); gcry_mpi_release(s); return false; }
+	if (P.k->pkalgo == TMCG_OPENPGP_PKALGO_RSA) PGP::PacketSigEncode(hashed, left, s, pkt); else PGP::PacketSigEncode(hashed, left, r, s, pkt);
+	gcry_mpi_release(r); gcry_mpi_release(s); return true;
+}
+static bool ref_valid(long now, const SigSpec &s, long kct) {
+	return !(s.sigexp && now > (long)s.ct + (long)s.sigexp) && (long)s.ct >= kct && (long)s.ct <= now + 90000 &&
+		(s.ha == TMCG_OPENPGP_HASHALGO_SHA256 || s.ha == TMCG_OPENPGP_HASHALGO_SHA384 || s.ha == TMCG_OPENPGP_HASHALGO_SHA512);
+}
+static void keyblock_suite(const Key &k, const Key &subrsa) {
+	gcry_mpi_t sn = NULL, se = NULL; if (gcry_sexp_extract_param(subrsa.key, NULL, "ne", &sn, &se, NULL)) return;
+	const int H = TMCG_OPENPGP_HASHALGO_SHA256, W = TMCG_OPENPGP_HASHALGO_SHA1;
+	struct Case { const char *name; long uid_dct, uid_se, uid_ke; int uid_ha; int direct; long d_se, d_ke; long b_dct, b_se, b_ke; int b_ha; int rev; long r_se;
+		bool want_self, want_uid, want_pubexp, want_subs, want_subexp, want_revoked; };
+	// times relative to now; key created at now-20000, subkey at now-19000; dct = creation time of the signature minus now
+	static const Case C[] = {
+		{ "honest",            -10000, 0, 0, H, 1, 0, 0,         -10000, 0, 0, H, 0, 0,       true,  true,  false, true,  false, false },
+		{ "unexpired",         -10000, 100000, 100000, H, 1, 100000, 100000, -10000, 100000, 100000, H, 0, 0, true, true, false, true, false, false },
+		{ "uid-sig-expired",   -10000, 1000, 0, H, 0, 0, 0,      -10000, 0, 0, H, 0, 0,       false, false, false, true,  false, false },
+		{ "uid-sig-expired-keyexp-far", -10000, 1000, 900000, H, 0, 0, 0, -10000, 0, 0, H, 0, 0, false, false, false, true, false, false },
+		{ "direct-sig-expired", -10000, 0, 0, H, 1, 1000, 1000,  -10000, 0, 0, H, 0, 0,       true,  true,  false, true,  false, false },
+		{ "bind-sig-expired",  -10000, 0, 0, H, 0, 0, 0,         -10000, 1000, 0, H, 0, 0,    true,  true,  false, false, false, false },
+		{ "bind-sig-expired-keyexp-far", -10000, 0, 0, H, 0, 0, 0, -10000, 1000, 900000, H, 0, 0, true, true, false, false, false, false },
+		{ "key-expired",       -10000, 0, 1000, H, 0, 0, 0,      -10000, 0, 0, H, 0, 0,       false, true,  true,  true,  false, false },
+		{ "key-expired-sigexp-far", -10000, 900000, 1000, H, 0, 0, 0, -10000, 0, 0, H, 0, 0,  false, true,  true,  true,  false, false },
+		{ "subkey-expired",    -10000, 0, 0, H, 0, 0, 0,         -10000, 0, 1000, H, 0, 0,    true,  true,  false, false, true,  false },
+		{ "subkey-expired-sigexp-far", -10000, 0, 0, H, 0, 0, 0, -10000, 900000, 1000, H, 0, 0, true, true, false, false, true, false },
+		{ "uid-sig-older-than-key", -20100, 0, 0, H, 0, 0, 0,    -10000, 0, 0, H, 0, 0,       false, false, false, true,  false, false },
+		{ "bind-sig-older-than-key", -10000, 0, 0, H, 0, 0, 0,   -19500, 0, 0, H, 0, 0,       true,  true,  false, false, false, false },
+		{ "uid-sig-future",    90000 + 1800, 0, 0, H, 0, 0, 0,   -10000, 0, 0, H, 0, 0,       false, false, false, true,  false, false },
+		{ "bind-sig-future",   -10000, 0, 0, H, 0, 0, 0,         90000 + 1800, 0, 0, H, 0, 0, true,  true,  false, false, false, false },
+		{ "uid-sig-weak-hash", -10000, 0, 0, W, 0, 0, 0,         -10000, 0, 0, H, 0, 0,       false, false, false, true,  false, false },
+		{ "bind-sig-weak-hash", -10000, 0, 0, H, 0, 0, 0,        -10000, 0, 0, W, 0, 0,       true,  true,  false, false, false, false },
+		{ "revocation",        -10000, 0, 0, H, 0, 0, 0,         -10000, 0, 0, H, 1, 0,       false, true,  false, true,  false, true },
+		{ "revocation-expired", -10000, 0, 0, H, 0, 0, 0,        -10000, 0, 0, H, 1, 1000,    true,  true,  false, true,  false, false },
+	};
+	for (const Case &c : C) {
+		long now = time(NULL); uint32_t kct = now - 20000;
+		Primary P; if (!primary_packet(k, kct, P)) { propfail("keyblock-build-" + k.name, "cannot encode the public key packet"); break; }
+		oct subpkt, subbody; PGP::PacketSubEncode(now - 19000, TMCG_OPENPGP_PKALGO_RSA, sn, se, sn, se, subpkt); PGP::PacketBodyExtract(subpkt, 0, subbody);
+		std::string uid = "Test <t@example.org>"; oct uidpkt; PGP::PacketUidEncode(uid, uidpkt);
+		std::vector<std::pair<SigSpec, int> > specs;   // spec, kind
+		oct block = P.pubpkt; bool built = true;
+		auto add = [&](int kind, SigSpec sp) { oct sp_pkt; if (!real_sig(P, kind, sp, uid, subbody, sp_pkt)) { built = false; return; } block.insert(block.end(), sp_pkt.begin(), sp_pkt.end()); specs.push_back(std::make_pair(sp, kind)); };
+		if (c.direct) add(1, SigSpec{ 0x1F, (uint32_t)(now - 10000), (uint32_t)c.d_se, (uint32_t)c.d_ke, H, 3 });
+		if (c.rev) add(1, SigSpec{ 0x20, (uint32_t)(now - 10000), (uint32_t)c.r_se, 0, H, -1 });
+		block.insert(block.end(), uidpkt.begin(), uidpkt.end());
+		add(0, SigSpec{ 0x13, (uint32_t)(now + c.uid_dct), (uint32_t)c.uid_se, (uint32_t)c.uid_ke, c.uid_ha, 3 });
+		block.insert(block.end(), subpkt.begin(), subpkt.end());
+		add(2, SigSpec{ 0x18, (uint32_t)(now + c.b_dct), (uint32_t)c.b_se, (uint32_t)c.b_ke, c.b_ha, 12 });
+		if (!built) continue;   // the primitive refused to sign (e.g. weak hash with this algorithm): nothing to test
+		std::string ctx = std::string(c.name) + "/" + k.name;
+		for (int path = 0; path < 2; path++) {   // key block alone, and as first key of a keyring
+			TMCG_OpenPGP_Pubkey *pub = NULL; TMCG_OpenPGP_Keyring *ring = NULL; bool ok;
+			if (path == 0) { ok = PGP::PublicKeyBlockParse(block, 0, pub) && pub; ring = new TMCG_OpenPGP_Keyring(); }
+			else { std::string arm, fprs; PGP::ArmorEncode(TMCG_OPENPGP_ARMOR_PUBLIC_KEY_BLOCK, block, arm); PGP::FingerprintConvertPlain(P.fpr, fprs);
+				ok = PGP::PublicKeyringParse(arm, 0, ring) && ring; pub = ok ? ring->Find(fprs) : NULL; ok = ok && pub; }
+			if (!ok) { propfail("keyblock-parse-" + k.name, "key block " + ctx + " does not parse"); if (ring) delete ring; continue; }
+			// every signature object: validity exactly as its own fields say
+			std::vector<const TMCG_OpenPGP_Signature*> v; collect(pub, v);
+			if (v.size() != specs.size()) propfail("keyblock-signatures-lost", "key block " + ctx + ": " + std::to_string(specs.size()) + " signatures written, " + std::to_string(v.size()) + " read");
+			for (auto sg : v) for (auto &sp : specs) if (sp.first.type == (int)sg->type) {
+				const SigSpec &ss = sp.first;
+				if ((uint32_t)sg->creationtime != ss.ct || (uint32_t)sg->expirationtime != ss.sigexp || (uint32_t)sg->keyexpirationtime != ss.keyexp || (int)sg->hashalgo != ss.ha)
+					propfail("keyblock-sig-fields-" + k.name, "signature type " + std::to_string(ss.type) + " of " + ctx + " is read with creation/expiration/key expiration " + std::to_string((long)sg->creationtime) + "/" + std::to_string((long)sg->expirationtime) + "/" + std::to_string((long)sg->keyexpirationtime) + ", written " + std::to_string(ss.ct) + "/" + std::to_string(ss.sigexp) + "/" + std::to_string(ss.keyexp));
+				bool got = const_cast<TMCG_OpenPGP_Signature*>(sg)->CheckValidity(kct, 0);
+				if (got != ref_valid(now, ss, kct)) propfail("keyblock-sig-validity-" + k.name, "CheckValidity of signature type " + std::to_string(ss.type) + " read from key block " + ctx + " is " + (got ? "true" : "false"));
+			}
+			bool self = pub->CheckSelfSignatures(ring, 0), subs = pub->CheckSubkeys(ring, 0);
+			bool uidv = pub->userids.size() == 1 && pub->userids[0]->valid;
+			bool subexp = pub->subkeys.size() == 1 && pub->subkeys[0]->expired;
+			std::string got = std::string(self ? "S" : "s") + (uidv ? "U" : "u") + (pub->expired ? "X" : "x") + (subs ? "B" : "b") + (subexp ? "Y" : "y") + (pub->revoked ? "R" : "r");
+			std::string want = std::string(c.want_self ? "S" : "s") + (c.want_uid ? "U" : "u") + (c.want_pubexp ? "X" : "x") + (c.want_subs ? "B" : "b") + (c.want_subexp ? "Y" : "y") + (c.want_revoked ? "R" : "r");
+			if ((long)time(NULL) - now < 600 && got != want)
+				propfail(std::string(path ? "keyring-" : "keyblock-") + c.name, std::string(path ? "keyring entry " : "key block ") + ctx + ": self-signatures/user ID/key expired/subkeys/subkey expired/revoked = " + got + ", required " + want);
+			if (path == 0) delete pub;   // the keyring owns its keys
+			delete ring; g_cases++;
+		}
+	}
+	gcry_mpi_release(sn); gcry_mpi_release(se);
+}
+
 // ---------------------------------------------------------------------------------------------------------
 // encryption
 // ---------------------------------------------------------------------------------------------------------
@@ -475,15 +679,16 @@ int main(int argc, char **argv) {
 	if (on("hash")) hash_records();
 	if (on("validity")) validity_records();
 	if (on("sig-rsa")) { Key k; k.name = "rsa"; k.pkalgo = TMCG_OPENPGP_PKALGO_RSA; k.params = "ne"; k.pubfmt = "(public-key (rsa (n %M) (e %M)))";
-		if (!genkey(k, "(genkey (rsa (nbits 4:2048)(transient-key)))")) propfail("keygen", "cannot generate RSA key"); else sig_suite(k); }
+		if (!genkey(k, "(genkey (rsa (nbits 4:2048)(transient-key)))")) propfail("keygen", "cannot generate RSA key"); else { sig_suite(k); keyblock_suite(k, k); } }
 	if (on("sig-dsa")) { Key k; k.name = "dsa"; k.pkalgo = TMCG_OPENPGP_PKALGO_DSA; k.params = "pqgy"; k.pubfmt = "(public-key (dsa (p %M) (q %M) (g %M) (y %M)))";
-		if (!genkey(k, "(genkey (dsa (nbits 4:2048)(transient-key)))")) propfail("keygen", "cannot generate DSA key"); else sig_suite(k); }
+		if (!genkey(k, "(genkey (dsa (nbits 4:2048)(transient-key)))")) propfail("keygen", "cannot generate DSA key"); else { sig_suite(k); Key sr; if (genkey(sr, "(genkey (rsa (nbits 4:2048)(transient-key)))")) keyblock_suite(k, sr); else propfail("keygen", "cannot generate RSA subkey"); } }
 	if (on("sig-ecdsa")) { Key k; k.name = "ecdsa"; k.pkalgo = TMCG_OPENPGP_PKALGO_ECDSA; k.params = "q"; k.pubfmt = "(public-key (ecc (curve \"NIST P-256\") (q %M)))";
-		if (!genkey(k, "(genkey (ecdsa (curve secp256r1)))")) propfail("keygen", "cannot generate ECDSA key"); else sig_suite(k); }
+		if (!genkey(k, "(genkey (ecdsa (curve secp256r1)))")) propfail("keygen", "cannot generate ECDSA key"); else { sig_suite(k); Key sr; if (genkey(sr, "(genkey (rsa (nbits 4:2048)(transient-key)))")) keyblock_suite(k, sr); else propfail("keygen", "cannot generate RSA subkey"); } }
 	if (on("sig-eddsa")) { Key k; k.name = "eddsa"; k.pkalgo = TMCG_OPENPGP_PKALGO_EDDSA; k.params = "q"; k.pubfmt = "(public-key (ecc (curve Ed25519) (flags eddsa) (q %M)))";
-		if (!genkey(k, "(genkey (ecc (curve Ed25519) (flags eddsa)))")) propfail("keygen", "cannot generate EdDSA key"); else sig_suite(k); }
+		if (!genkey(k, "(genkey (ecc (curve Ed25519) (flags eddsa)))")) propfail("keygen", "cannot generate EdDSA key"); else { sig_suite(k); Key sr; if (genkey(sr, "(genkey (rsa (nbits 4:2048)(transient-key)))")) keyblock_suite(k, sr); else propfail("keygen", "cannot generate RSA subkey"); } }
 	if (on("enc-mdc")) enc_mdc_suite();
 	if (on("enc-aead")) enc_aead_suite();
+	if (on("sigfields")) sigfields_suite();
 	if (on("aead-nonce")) aead_nonce_suite();
 	if (on("pke")) { Key rsa, elg, ec; bool a = genkey(rsa, "(genkey (rsa (nbits 4:2048)(transient-key)))"), b = genkey(elg, "(genkey (elg (nbits 4:2048)(transient-key)))"), c = genkey(ec, "(genkey (ecc (curve secp256r1)))");
 		if (!a || !b) propfail("keygen", "cannot generate encryption keys"); else pke_suite(rsa, elg, c ? &ec : NULL); }
